@@ -72,4 +72,26 @@ PROPS["C09"] = {
     "level_note": "Callbacks assumed non-raising; ratios abstracted; engine and z3 trusted.",
 }
 
+PROPS["C19"] = {
+    "contracts": ["contracts/C19_cascade.py"],
+    "level": "other",
+    "extra": [{"name": "C19/bounded[pipelines<=2 quick,<=3 thorough]", "kind": "bounded", "tiers": ("quick",),
+               "cmd": ["/venv/bin/python", "native/c19_bounded.py", "--stages", "2", "--out", "replays/C19-bounded.json"]},
+              {"name": "C19/bounded[pipelines<=3]", "kind": "bounded", "tiers": ("thorough",), "timeout": 1800,
+               "cmd": ["/venv/bin/python", "native/c19_bounded.py", "--stages", "3", "--out", "replays/C19-bounded.json"]}],
+    "assumptions": ["checkpoints, processors and error handlers are havocked callbacks (arbitrary value or arbitrary Exception)",
+                    "on_stage_complete / on_cascade_complete do not raise",
+                    "the product acc*factor is a nonlinear real term compared syntactically (same term on both sides)",
+                    "MAPKCascade preset: covered as an instance of Cascade.run (its stages are ordinary CascadeStage objects)"],
+    "trusted_base": ["ghost call log of havocked callbacks", "element counter ghost for 'COMPLETED' results (updated at append and at status writes)"],
+    "explanation": "Deductive part: the gate rule is a call-site precondition on every processor invocation (in run and in _run_single_stage), "
+                   "halting is an inductive loop invariant (with halt_on_failure the loop is only re-entered with nothing blocked) plus a per-iteration "
+                   "step clause, amplification and composition are per-iteration step clauses, success/withheld-output are postconditions; all for "
+                   "pipelines of ANY length. Bounded part (labelled bounded): exhaustive enumeration of pipelines up to 2 (quick) / 3 (thorough) stages "
+                   "on the real code, which also serves as witness finder for loop-internal obligations.",
+    "level_text": "Mixed: unbounded deductive proof of the per-stage rules via loop invariant and call-site preconditions, plus a bounded exhaustive "
+                  "stand-in for the whole-run claims (in-order completion, composition of all stages).",
+    "level_note": "Callbacks havocked; counting of COMPLETED results uses a ghost counter maintained by the engine; whole-run composition is only bounded.",
+}
+
 NOT_APPLICABLE = {}
